@@ -42,7 +42,7 @@ inductive Op
   | dropPinned                -- drop the last part of the oldest pinned allocation
   | dropOld                   -- drop a part of a pinned allocation that still has other parts
   | splitOffTail              -- split_off(len): the spare capacity becomes a part
-  | unsplitLast (n cap : Nat) -- unsplit a part that is contiguous with the end of the main handle
+  | unsplitLast (n cap : Nat) -- unsplit(part): a part (len n, capacity cap) of this allocation that starts at the end of the contents
   | roundTrip                 -- freeze() the main handle and convert back (try_into_mut / Into<BytesMut>)
   deriving Repr, DecidableEq, Inhabited
 
@@ -94,17 +94,33 @@ def step (r : Rec) : Op → Rec
     let r' := promote r
     { r' with cap := r'.len, parts := r'.parts + 1 }
   | .unsplitLast n c =>
-    if r.parts = 0 ∨ r.len ≠ r.cap then r
-    else { r with len := r.len + n, cap := r.cap + c, parts := r.parts - 1 }
+    -- `BytesMut::unsplit(other)` for a part `other` (len `n`, capacity `c`) of this allocation that
+    -- starts where the contents of the main handle end (at `off + len`)
+    if r.len = 0 then
+      -- `if self.is_empty() { *self = other }`: the main handle takes over the part's view (which
+      -- starts at `off + len = off`); its own reference is released
+      { r with len := n, cap := c, parts := r.parts - 1 }
+    else if c = 0 then
+      -- `try_unsplit`: `other.capacity() == 0` ⇒ `Ok(())`, the part is dropped
+      { r with parts := r.parts - 1 }
+    else if r.len = r.cap then
+      -- contiguous halves of the same shared buffer (`ptr + len == other.ptr`): merged
+      { r with len := r.len + n, cap := r.cap + c, parts := r.parts - 1 }
+    else
+      -- not mergeable: `extend_from_slice(other.as_ref())`, then the part is dropped
+      let r' := reserve r n
+      { r' with len := r'.len + n, parts := r'.parts - 1 }
   | .roundTrip =>
     if r.parts ≠ 0 then
       -- not unique: `BytesMut::from(Bytes)` copies the view into a fresh exact-size vector and releases its reference
       { r with A := r.len, off := 0, cap := r.len, arc := false, orig := origRepr r.len, parts := 0,
                pinned := r.A :: r.pinned, allocs := if r.len = 0 then r.allocs else r.allocs + 1 }
     else if !r.arc then
-      -- freeze of KIND_VEC: promotable when len = cap (the tail is forgotten), else Shared{cap};
-      -- converting back restores a KIND_VEC handle
-      if r.len = r.cap then r else { r with orig := origRepr r.A }
+      -- freeze of KIND_VEC: promotable when len = cap, else Shared{cap}.  Converting back rebuilds the
+      -- vector over the whole allocation in both cases (`promotable_to_mut` / `shared_to_mut_impl`:
+      -- `BytesMut::from_vec(Vec::from_raw_parts(buf, …, cap))` + `advance_unchecked(off)`), which
+      -- restores the KIND_VEC handle and re-records `original_capacity_repr` from the full capacity
+      { r with orig := origRepr r.A }
     else
       -- unique frozen BytesMut: `shared_v_to_mut` hands back everything behind the offset
       { r with cap := r.A - r.off }
